@@ -66,8 +66,12 @@ SHAPES = {
     "loss1": (2, [("loss", 0)]),
     "bsq-loss": (2, [("bsq", 0, 1, "Rx", (1, 3)), ("loss", 0)]),
     "loss-bsq-loss": (2, [("loss", 1), ("bsq", 0, 1, "H", (2, 5)), ("lossq", 0, (1, 4))]),
+    # a partial loss element followed by complete loss (exactly 1) on the same mode: the first loss
+    # mode is populated although nothing that enters it ever reaches a visible output
+    "loss-then-full-loss": (2, [("loss", 0), ("lossq", 0, (1, 1))]),
+    "bsq-loss-full-loss": (2, [("bsq", 0, 1, "Rx", (1, 3)), ("loss", 0), ("lossq", 0, (1, 1)), ("lossq", 1, (1, 1))]),
 }
-UNIVARIATE = ("loss1", "bsq-loss", "loss-bsq-loss")
+UNIVARIATE = ("loss1", "bsq-loss", "loss-bsq-loss", "loss-then-full-loss", "bsq-loss-full-loss")
 
 
 def _build(ctx, shape):
